@@ -17,6 +17,21 @@ Theorem C12_lockset_sound : forall (tr : nat -> ev) (N : nat), valid tr N ->
   holder tr i l = Some t1 -> holder tr j l = Some t2 -> hb tr N i j.
 Proof. exact Lockset.C12_lockset_sound. Qed.
 
+(* the synchronised accessors of the shared audit record have the shape the discipline argument was made for: in particular
+   every snapshot and every Tags() result gets a map of its own, unconditionally *)
+Theorem C12_code_conforms :
+  skel_eqb skel_FileIP_auditInfoSnapshot exp_FileIP_auditInfoSnapshot
+  && skel_eqb skel_FileIP_Tags exp_FileIP_Tags
+  && skel_eqb skel_FileIP_AddTag exp_FileIP_AddTag
+  && skel_eqb skel_FileIP_AddTags exp_FileIP_AddTags
+  && skel_eqb skel_FileIP_AuditInfo exp_FileIP_AuditInfo
+  && skel_eqb skel_FileIP_SetAuditInfo exp_FileIP_SetAuditInfo
+  && skel_eqb skel_FileIP_WriteAuditLogToFile exp_FileIP_WriteAuditLogToFile
+  && skel_eqb skel_Task_writeAuditLogs exp_Task_writeAuditLogs
+  && skel_eqb skel_InPort_CloseConnection exp_InPort_CloseConnection
+  && skel_eqb skel_InParamPort_CloseConnection exp_InParamPort_CloseConnection = true.
+Proof. vm_compute. reflexivity. Qed.
+
 (* (2) the discipline, computed on the skeletons regenerated in this run *)
 Theorem C12_discipline_tags :
   guarded "ip.lock" ".Tags" skel_FileIP_AddTag
@@ -52,6 +67,7 @@ Theorem C12_tags_refuted_before_repair :
   guarded "ip.lock" ".Tags" [SCall "ip.AuditInfo"; SIf "ai.Tags[k] != """" && ai.Tags[k] != v" [SFail] []; SAssign "ai.Tags[k]"] = false.
 Proof. vm_compute. reflexivity. Qed.
 
+Print Assumptions C12_code_conforms.
 Print Assumptions C12_lockset_sound.
 Print Assumptions C12_discipline_tags.
 Print Assumptions C12_discipline_ports_and_slots.
